@@ -306,6 +306,8 @@ class Interp:
                     if m is not None:
                         return self.call_function(m, [b], {})
             if isinstance(b, SObj):
+                if f'__r{nm}__' in b.attrs:          # ghost value: reflected operator defined by the contract
+                    return self.call(b.attrs[f'__r{nm}__'], [a], {})
                 m = self.find_method_obj(b, f'__r{nm}__')
                 if m is not None:
                     return self.call_function(m, [a], {})
